@@ -10,7 +10,8 @@
 (*  MAccept{tasks:[{task,role,env}]}  MUpdate{task,state}  MKill{task}     *)
 (*  MTriggerHook{task,env}  HookStart{hook,env,trig}  MMessage{event,task, *)
 (*  env}  Fault{kind,task,tasks} (EXECUTOR_LOST / AGENT_LOST: tasks = the   *)
-(*  tasks of that executor / agent)  MasterUpdate{task,kind}  Snapshot{      *)
+(*  tasks of that executor / agent)  MasterUpdate{task,kind}                 *)
+(*  MKillRefused{task} (the master rejected the KILL call)  Snapshot{       *)
 (*  envs:[{env,st,dets,tasks}],tasks:[{task,owner,locked,   *)
 (*  status}],active_dets,master:[{task,terminal,kills}]}  Pending{n}  End  *)
 (*                                                                         *)
@@ -70,8 +71,20 @@ Ok(what) == Valid(what, est[E]) /\ Line.st = Dst(what)
 DestroyWins(e) ==
   LET js == {j \in l..Len(Trace) : Trace[j].ev = "ApiReply" /\ Trace[j].call = "destroy" /\ Trace[j].env = e} IN
   js # {} /\ Trace[CHOOSE j \in js : \A i \in js : j <= i].code = "OK"
-TdWho(e) == IF TdWanted(e, "d") /\ TdWanted(e, "c") THEN (IF DestroyWins(e) THEN "d" ELSE "c")
-            ELSE IF TdWanted(e, "c") THEN "c" ELSE "d"
+\* what the acquirer does next: it goes on (phase left) or gives the lock back at once (refused)
+TdRefusedNext(e) ==
+  LET js == {j \in (l + 1)..Len(Trace) : /\ Trace[j].ev = "Hook" /\ Trace[j].env = e
+                                          /\ \/ Trace[j].point = "env.teardown.phase"
+                                             \/ Trace[j].point = "env.lock.release" /\ Trace[j].what = "DESTROY"} IN
+  js # {} /\ Trace[CHOOSE j \in js : \A i \in js : j <= i].point = "env.lock.release"
+TdWho(e) ==
+  IF TdWanted(e, "d") /\ TdWanted(e, "c")
+    THEN LET dforce == ("force" \in dfl[e]) \/ dforced[e] IN
+         IF TdRefusedNext(e)
+           \* the forced teardown of the failure tail is only refused on a DONE environment
+           THEN (IF est[e] # "DONE" THEN "d" ELSE IF DestroyWins(e) THEN "c" ELSE "d")
+           ELSE (IF est[e] \notin {"STANDBY", "DEPLOYED"} /\ ~dforce THEN "c" ELSE IF DestroyWins(e) THEN "d" ELSE "c")
+  ELSE IF TdWanted(e, "c") THEN "c" ELSE "d"
 
 KillerOfSelect ==
   LET cands == {k \in Killers : /\ kst[k] = "run" /\ T \in ksel[k]
@@ -148,12 +161,13 @@ Direct ==
     [] a = "MUpdate" -> IF Line.state = "TASK_RUNNING" THEN TaskRunning(T) ELSE TaskGone(T)
     [] a = "Fault" -> FailureEvent(SeqSet(Line.tasks))
     [] a = "MasterUpdate" -> MasterUpdate(T)
+    [] a = "MKillRefused" -> (LET cands == {k \in Killers : T \in ksent[k]} IN cands # {} /\ KillRefuse(CHOOSE k \in cands : TRUE, T))
     [] OTHER -> FALSE
 
 \* lines that drive the model
 IsTimeout == Line.ev = "ApiReply" /\ Line.timeout
 IsModelLine ==
-  \/ Line.ev \in {"Api", "MAccept", "Fault", "MasterUpdate"}
+  \/ Line.ev \in {"Api", "MAccept", "Fault", "MasterUpdate", "MKillRefused"}
   \/ Line.ev = "ApiReply" /\ ~Line.timeout
   \/ Line.ev = "Hook" /\ ~HookIgnored
   \/ Line.ev = "MUpdate" /\ (IF Line.state = "TASK_RUNNING" THEN ~running[T] ELSE alive[T])
@@ -165,6 +179,8 @@ IsModelLine ==
 EagerCands ==
   {<<"pl", e, "">> : e \in {x \in Envs : ENABLED DPlan(x)}}
   \cup {<<"go", e, "">> : e \in {x \in Envs : ENABLED DGoTd(x)}}
+  \cup {<<"lk", e, "">> : e \in {x \in Envs : ENABLED DLookup(x)}}
+  \cup {<<"cl", e, "">> : e \in {x \in Envs : ENABLED CLookup(x)}}
   \cup {<<"nf", e, "">> : e \in {x \in Envs : ENABLED DTdNotFound(x)}}
   \cup {<<"kb", k[1], k[2]>> : k \in {x \in Killers : x[2] \in {"api", "ck", "d"} /\ KillerPhase(x) /\ kst[x] = "idle"}}
   \cup {<<"kr", k[1], k[2]>> : k \in {x \in Killers : kst[x] = "run" /\ ksel[x] = {}}}
@@ -173,6 +189,8 @@ Eager ==
   /\ LET c == CHOOSE x \in EagerCands : TRUE IN
        CASE c[1] = "pl" -> DPlan(c[2])
          [] c[1] = "go" -> DGoTd(c[2])
+         [] c[1] = "lk" -> DLookup(c[2])
+         [] c[1] = "cl" -> CLookup(c[2])
          [] c[1] = "nf" -> DTdNotFound(c[2])
          [] c[1] = "kr" -> KillRemove(<<c[2], c[3]>>)
          [] OTHER -> KillBegin(<<c[2], c[3]>>)
@@ -278,7 +296,7 @@ MonStep ==
     [] a = "MTriggerHook" ->
          Soft("DestroyHooksLast", \A t \in DOMAIN mown : mown[t] = E => Get(mrole, t, None) \in HookRolesOf(E),
               <<T, E, {t \in DOMAIN mown : mown[t] = E /\ Get(mrole, t, None) \notin HookRolesOf(E)}>>)
-    [] a = "ApiReply" /\ Line.timeout -> Soft("Returns", FALSE, <<Line.call, E>>)
+    [] a = "ApiReply" /\ Line.timeout -> Soft("Returns", mode = "assume", <<Line.call, E>>)   \* (the lost report makes the creation wait)
     [] a = "ApiReply" /\ Line.call = "create" /\ Line.code = "OK" ->
          \* a create that needed a detector held by an environment that stayed live during the whole call must fail
          Soft("ConflictFails",
@@ -343,7 +361,7 @@ ModelInit ==
   /\ kpre' = [k \in Killers |-> {}] /\ kact' = [k \in Killers |-> {}] /\ kdrop' = [k \in Killers |-> {}]
   /\ kst' = [k \in Killers |-> "idle"]
   /\ tenv' = [t \in TaskIds |-> None] /\ trole' = [t \in TaskIds |-> None] /\ owner' = [t \in TaskIds |-> None]
-  /\ inRoster' = [t \in TaskIds |-> FALSE] /\ running' = [t \in TaskIds |-> FALSE] /\ standby' = [t \in TaskIds |-> TRUE]
+  /\ inRoster' = [t \in TaskIds |-> FALSE] /\ appended' = [t \in TaskIds |-> FALSE] /\ running' = [t \in TaskIds |-> FALSE] /\ standby' = [t \in TaskIds |-> TRUE]
   /\ blank' = [t \in TaskIds |-> FALSE] /\ werr' = [e \in Envs |-> FALSE]
   /\ alive' = [t \in TaskIds |-> FALSE] /\ triggered' = [t \in TaskIds |-> FALSE] /\ killSent' = [t \in TaskIds |-> FALSE]
   /\ lastOwner' = [t \in TaskIds |-> None] /\ killedOwned' = FALSE /\ cmdForeign' = FALSE
@@ -360,8 +378,13 @@ TReset ==
   /\ minfl' = 0 /\ mtrig' = EmptyF /\ mgone' = {} /\ mlive' = EmptyF /\ mhold' = EmptyF /\ msnap' = [ok |-> FALSE, envs |-> <<>>] /\ msame' = FALSE
 
 \* a silent step of the code: the line is not consumed
+\* The simulated agents report TASK_RUNNING once the task is in the roster, or after 3 s: on a loaded machine a
+\* creation parked at a gate can exceed that.  The core then loses the report (real executors take far longer to
+\* start, the model leaves this out): the scenario is not followed any further, the monitor goes on.
+EarlyReport == Line.ev = "MUpdate" /\ Line.state = "TASK_RUNNING" /\ T \notin mrost
+
 TSilent ==
-  /\ Line.ev # "Reset" /\ mode = "ok" /\ ~IsTimeout
+  /\ Line.ev # "Reset" /\ mode = "ok" /\ ~IsTimeout /\ ~EarlyReport
   /\ \/ Eager
      \/ EagerCands = {} /\ IsModelLine /\ ~ENABLED Direct /\ LazyFor
   /\ UNCHANGED tvars2
@@ -370,7 +393,7 @@ NoSilent == EagerCands = {} /\ ~(IsModelLine /\ (LazyCands # {} \/ SkipCands # {
 
 \* the line is the model action it names
 TMatch ==
-  /\ Line.ev # "Reset" /\ mode = "ok" /\ NoSilent /\ ~IsTimeout
+  /\ Line.ev # "Reset" /\ mode = "ok" /\ NoSilent /\ ~IsTimeout /\ ~EarlyReport
   /\ IF IsModelLine THEN Direct
      ELSE IF Line.ev = "Snapshot" THEN SnapConforms /\ UNCHANGED vars
      ELSE UNCHANGED vars
@@ -384,9 +407,15 @@ TTimeout ==
   /\ mode' = "lost" /\ nviol' = nviol + MonStep /\ MonUpdate
   /\ l' = l + 1 /\ UNCHANGED <<vars, scn, case>>
 
+TAssume ==
+  /\ Line.ev # "Reset" /\ mode \in {"ok", "lost"} /\ EarlyReport
+  /\ PrintT(<<"ASSUME", scn, l, "report-before-roster">>)
+  /\ mode' = "assume" /\ nviol' = nviol + MonStep /\ MonUpdate
+  /\ l' = l + 1 /\ UNCHANGED <<vars, scn, case>>
+
 \* ... or it is not: report and skip to the next scenario (the monitor goes on)
 TDrift ==
-  /\ Line.ev # "Reset" /\ mode = "ok" /\ NoSilent /\ ~IsTimeout
+  /\ Line.ev # "Reset" /\ mode = "ok" /\ NoSilent /\ ~IsTimeout /\ ~EarlyReport
   /\ IF IsModelLine THEN ~ENABLED Direct ELSE (Line.ev = "Snapshot" /\ ~SnapConforms)
   /\ PrintT(<<"DRIFT", scn, l, IF Line.ev = "Hook" THEN <<Line.point, Line.env, Line.task, Line.what, Line.phase>>
                                 ELSE IF Line.ev \in {"Api", "ApiReply"} THEN <<Line.ev, Line.call, Line.env>> ELSE Line.ev>>)
@@ -394,7 +423,7 @@ TDrift ==
   /\ l' = l + 1 /\ UNCHANGED <<vars, scn, case>>
 
 TLost ==
-  /\ Line.ev # "Reset" /\ mode = "lost"
+  /\ Line.ev # "Reset" /\ (mode = "assume" \/ (mode = "lost" /\ ~EarlyReport))
   /\ nviol' = nviol + MonStep /\ MonUpdate
   /\ l' = l + 1 /\ UNCHANGED <<vars, mode, scn, case>>
 
@@ -406,7 +435,7 @@ TraceInit ==
 
 TraceNext ==
   /\ l <= Len(Trace)
-  /\ TReset \/ TSilent \/ TMatch \/ TTimeout \/ TDrift \/ TLost
+  /\ TReset \/ TSilent \/ TMatch \/ TTimeout \/ TAssume \/ TDrift \/ TLost
 
 TraceSpec == TraceInit /\ [][TraceNext]_<<vars, tvars2>>
 PrintEnd == (l = Len(Trace) + 1) => PrintT(<<"END", Len(Trace), nviol>>)
